@@ -90,13 +90,24 @@ def _fold_str(node: ast.AST, env: Dict[str, str]):
                 return getattr(base, m)(*args)
     if isinstance(node, ast.UnaryOp) and isinstance(node.op, ast.Not):
         v = _fold_str(node.operand, env)
-        return (not v) if isinstance(v, bool) else None
+        return (not v) if isinstance(v, (bool, str)) else None
+    if isinstance(node, ast.Compare) and len(node.ops) == 1 and isinstance(node.ops[0], (ast.Eq, ast.NotEq)):
+        a, b = _fold_str(node.left, env), _fold_str(node.comparators[0], env)
+        if isinstance(a, str) and isinstance(b, str):
+            return (a == b) if isinstance(node.ops[0], ast.Eq) else (a != b)
     return None
 
 
 def recognise(arms, line: str):
     """Which arm of the chain takes `line`, and the text it extracts: the arm's leading statements are
     folded over the constant line (slices, strip, `if x.startswith(' '): x = x[1:]`)."""
+    # the variable holding the line: receiver of the first startswith(<const>) test of the chain
+    line_var = None
+    for a in arms:
+        t = a.test
+        if isinstance(t, ast.Call) and call_name(t).endswith(".startswith") and isinstance(t.func, ast.Attribute) and isinstance(t.func.value, ast.Name):
+            line_var = t.func.value.id
+            break
     for a in arms:
         t = a.test
         if isinstance(t, ast.Call) and call_name(t).endswith(".startswith") and t.args and isinstance(t.args[0], ast.Constant) and isinstance(t.func, ast.Attribute) and isinstance(t.func.value, ast.Name):
@@ -104,6 +115,8 @@ def recognise(arms, line: str):
             var = t.func.value.id
             if not line.startswith(pfx):
                 continue
+            if pfx.strip().rstrip(":") not in ("event", "data", "id", "retry", ""):
+                return (None, None)  # some other prefix arm took the line: it is not dispatched as event/data
             env = {var: line}
             extracted = None
 
@@ -131,6 +144,12 @@ def recognise(arms, line: str):
             run(a.body)
             return pfx.strip().rstrip(":"), (env.get(extracted) if extracted else None)
         else:
+            # an arm that is not a prefix test (`if not line:`, `elif line == "":`): decided by folding it over the sample line
+            c = _fold_str(t, {line_var: line}) if line_var else None
+            if c is False:
+                continue
+            if c is True:
+                return (None, None)  # the line is taken by a non-field arm (blank line handling)
             return ("?", None)
     return (None, None)
 
@@ -143,6 +162,10 @@ def grammar_rule(P: Project, R: Report, module: str, rule: str, label: str) -> i
         R.fn(f.fq)
         arms = chain_arms(head)
         where = f"{f.module.rel}:{head.lineno}"
+        gots = [recognise(arms, line) for _c, line, _w in LINE_CLASSES]
+        if all(g[0] == "?" for g in gots):
+            # not one sample line could be classified: the recogniser is written in a shape this rule cannot evaluate
+            raise AnalysisError(f"the SSE line recogniser of {f.qual} is written in a shape this rule cannot evaluate (expected an if/elif chain of startswith tests on the line)")
         for cname, line, want in LINE_CLASSES:
             got = recognise(arms, line)
             n += 1
